@@ -88,6 +88,10 @@ func c09DoLoad(d *c11Dag, src *ipfslog.IPFSLog, kind, n, conc int, forced bool, 
 	if n >= 0 {
 		v := n
 		lenp = &v
+	} else if k := seed % 4; k > 0 {
+		// "no limit" is any negative length (or none at all)
+		v := []int{0, -1, -2, -100}[k]
+		lenp = &v
 	}
 	ignore := map[cid.Cid]bool{}
 	r := &c11Run{d: d, length: n, conc: conc, forced: forced, choose: choose, delay: delay, seed: seed, ignoreGets: ignore}
